@@ -12,12 +12,12 @@ PROOF_ASSUME = [
 ]
 
 PROPS = {
-    "C01": dict(level="proof", plain=dict(quick=2500, thorough=30000), cli=dict(kinds=[("incl", 1)], quick=200, thorough=5000), kinds=[("incl", 30), ("inclall", 1), ("achain", 1), ("cacheh", 1)], n=dict(quick=12400, thorough=200000, search=12000),
+    "C01": dict(level="proof", plain=dict(quick=2500, thorough=30000), cli=dict(kinds=[("incl", 1)], quick=200, thorough=5000), kinds=[("incl", 30), ("inclall", 1), ("achain", 1), ("cacheh", 1), ("cliargs", 1)], n=dict(quick=12800, thorough=200000, search=12000),
                 rule="random / derived / correlated pairs of explicit tree automata (≤5 states each, ranks ≤2); each pair is run "
                      "through all 8 selections + the default overload (API) and judged against the proved reference inclM; "
                      "non-trivial = L(A) non-empty (so the verdict is not vacuous); distinct = distinct case text",
                 assumptions=PROOF_ASSUME),
-    "C02": dict(level="proof", cli=dict(kinds=[("cliop_c02", 1)], quick=150, thorough=4000), kinds=[("union", 3), ("unionpre", 2), ("uniondisj", 2), ("isect", 3), ("isectbu", 3)],
+    "C02": dict(level="proof", cli=dict(kinds=[("cliop_c02", 1)], quick=150, thorough=4000), kinds=[("union", 6), ("unionpre", 4), ("uniondisj", 4), ("isect", 6), ("isectbu", 6), ("glue", 1)],
                 n=dict(quick=3000, thorough=300000, search=4000),
                 rule="pairs of explicit tree automata with overlapping / sparse numbers; results judged by isUnionM / isIsectM "
                      "(proved), the reported maps by coverage, injectivity and the image / product certificate; operands "
@@ -43,7 +43,7 @@ PROPS = {
                      "empty and universal languages); Complement judged by isComplM (proved, both clauses); non-trivial = both "
                      "L(A) and L(C) non-empty",
                 assumptions=PROOF_ASSUME),
-    "C07": dict(level="proof", plain=dict(quick=2000, thorough=30000), cli=dict(kinds=[("bddincl", 1)], quick=150, thorough=4000), kinds=[("bddincl", 30), ("bddinclall", 1), ("achain", 1), ("ordvec", 1), ("bddsim", 2), ("cacheh", 1)], n=dict(quick=6800, thorough=200000, search=6000),
+    "C07": dict(level="proof", plain=dict(quick=2000, thorough=30000), cli=dict(kinds=[("bddincl", 1)], quick=150, thorough=4000), kinds=[("bddincl", 30), ("bddinclall", 1), ("achain", 1), ("ordvec", 1), ("bddsim", 2), ("cacheh", 1), ("cliargs", 1)], n=dict(quick=7000, thorough=200000, search=6000),
                 rule="the pairs of C01 (random / derived / split / correlated shapes) loaded from Timbuk text into both BDD "
                      "encodings: top-down × {rec, rec+cache} × {no simulation, simulation computed by the library's bottom-up "
                      "path for the sanitised operands}, bottom-up × {upward, downward+simulation, default overload}; each verdict "
@@ -51,7 +51,7 @@ PROPS = {
                      "reference); all 128 option words on both encodings must throw NotImplementedException unless implemented; "
                      "non-trivial = L(A) non-empty",
                 assumptions=PROOF_ASSUME),
-    "C08": dict(level="proof", cli=dict(kinds=[("cliop_c08", 1)], quick=150, thorough=4000), kinds=[("bddh", 12), ("bddtd", 2), ("ordvec", 1)], n=dict(quick=2700, thorough=200000, search=3000),
+    "C08": dict(level="proof", cli=dict(kinds=[("cliop_c08", 1)], quick=150, thorough=4000), kinds=[("bddh", 12), ("bddtd", 2), ("ordvec", 1), ("glue", 1)], n=dict(quick=2900, thorough=200000, search=3000),
                 rule="histories over a pool of automata in one BDD encoding (bottom-up or top-down): load from Timbuk text, "
                      "copy, assign, destroy, load into an existing automaton (AddTransition on a possibly shared table), "
                      "SetStateFinal, Union, UnionDisjointStates, Intersection, RemoveUnreachableStates, RemoveUselessStates; "
@@ -59,7 +59,7 @@ PROPS = {
                      "(proved), every other automaton must keep its language; plus bottom-up → top-down conversion; non-trivial "
                      "= some intersection non-empty or conversion of a non-empty language",
                 assumptions=PROOF_ASSUME),
-    "C09": dict(level="proof", plain=dict(quick=2000, thorough=30000), cli=dict(kinds=[("nfah_cli", 1)], quick=200, thorough=5000), kinds=[("nfah_incl", 24), ("achain", 1), ("ordvec", 1), ("cacheh", 1)], n=dict(quick=5400, thorough=100000, search=5000),
+    "C09": dict(level="proof", plain=dict(quick=2000, thorough=30000), cli=dict(kinds=[("nfah_cli", 1)], quick=200, thorough=5000), kinds=[("nfah_incl", 24), ("achain", 1), ("ordvec", 1), ("cacheh", 1), ("cliargs", 1)], n=dict(quick=5600, thorough=100000, search=5000),
                 rule="pairs of NFAs (several start states, start∧final, dead / unreachable states, symbols in one operand only, "
                      "overlapping and sparse numbers; B mutated from / a nondeterministic split of A); antichains, congruence "
                      "depth / breadth and the default overload through the API on raw operands, each verdict judged against the "
@@ -112,7 +112,7 @@ PROPS = {
                      "by operations on other handles, and after destroying every handle both tables are back to their initial "
                      "sizes; ASan reports use-after-free / double free; non-trivial = at least one apply in the history",
                 assumptions=PROOF_ASSUME),
-    "C13": dict(level="proof", kinds=[("parse", 24), ("nfah_ops", 2), ("bddh", 1)], n=dict(quick=13000, thorough=200000, search=13000),
+    "C13": dict(level="proof", kinds=[("parse", 24), ("nfah_ops", 2), ("bddh", 1), ("glue", 1)], n=dict(quick=13500, thorough=200000, search=13000),
                 rule="texts: valid files with adversarial names, ranked tree automata, word automata, byte- and token-level "
                      "mutations of them, keyword soups, random bytes (incl. NUL, 0x80, 0xff, VT, FF, CR), shipped small files and "
                      "their mutations; TimbukParser::ParseString is compared with the model parser (accept / throw, the whole "
